@@ -588,7 +588,38 @@ def _fresh_array(p, v) -> bool:
     return ce.d['name'] in ('copy', 'tolist') and ce.d.get('ext', False)
 
 
+def r13_8(ctx: Ctx):
+    """Registration keeps the listener: what AddListener puts into the list the drivers iterate is the listener object
+    itself.  A weak reference, a proxy or a copy means the object the user handed over is not the one notified - or,
+    for a weak reference, is notified only as long as somebody else happens to keep it alive."""
+    rid = 'R13.8'
+    ctx.rule(rid, 'registration: on every path of AddListener the listener argument itself is appended to the '
+                  'solver\'s listener list (not a weak reference, wrapper or copy of it)')
+    roles = C.roles_of(ctx)
+    add = roles.api('AddListener')
+    if add is None or len(add.param_names) < 2:
+        ctx.fail(rid, 'Solver.AddListener', 'iOpt/solver.py', 'AddListener(listener) not found',
+                 key=f'{rid}::missing')
+        return
+    lis = var(add.param_names[1])
+    n = 0
+    for p in C.normal_paths(ctx.explorer().explore(add)):
+        n += 1
+        regs = [e for e in p.events if e.kind == 'call' and e.d['name'] in ('append', 'add', 'insert', 'extend')
+                and e.d.get('recv') is not None and e.d['args']]
+        direct = [e for e in regs if any(key_of(a) == key_of(lis) for a in e.d['args'])]
+        wrapped = [e for e in regs if e not in direct and any(C.mentions(a, key_of(lis)) for a in e.d['args'])]
+        ctx.check(bool(direct) and not wrapped, rid, add.short, add.loc(wrapped[0].node) if wrapped else add.loc(),
+                  'the listener object itself is appended',
+                  f'AddListener registers {C.fmt(wrapped[0].d["args"][-1]) if wrapped else "nothing"} instead of the '
+                  f'listener object: the solver does not hold the listener the user attached, so it is not (or not '
+                  f'reliably) notified', key=f'{rid}::{add.short}::registers-itself')
+    ctx.floor(rid, 'paths of AddListener', n, 1)
+
+
 def check(ctx: Ctx):
+    if C.want(ctx, 'R13.8'):
+        r13_8(ctx)
     for rid, fn in (('R13.1', r13_1), ('R13.2', r13_2), ('R13.3', r13_3), ('R13.4', r13_4), ('R13.5', r13_5),
                     ('R13.6', r13_6)):
         if C.want(ctx, rid):
